@@ -144,6 +144,15 @@ def sensitivity(argv):
                 prop = json.load(fh)['property']
         if only and not any(o in name or o == prop for o in only):
             continue
+        if not patch.endswith('.patch'):
+            with open(os.path.join(os.path.dirname(patch), 'meta.json')) as fh:
+                judged = json.load(fh).get('judged_outside_the_statement')
+            if judged:
+                # kept for the record: a change an independent author proposed that I judge not to violate the
+                # property as stated (reason in its meta.json and in DESIGN.md §11.5); the check is silent by design
+                print(f'sensitivity {name}: not run — judged outside the statement ({judged[:90]})')
+                report[name] = {'property': prop, 'caught': None, 'judged_outside_the_statement': judged}
+                continue
         others = [p for p in PROPS if p != prop] if cross else []
         try:
             res = _run_mutant(patch, prop, others)
